@@ -56,6 +56,7 @@ struct SigPlan
   int trigger;        // 0 = k-th usleep, 1 = k-th seam event, 2 = k-th stdout line after console line `after`
   uint64_t k;
   uint32_t after;
+  uint32_t repeat;    // trigger 3 only: re-deliver every `repeat` yields while the command still runs (0 = once)
   bool done;
 };
 
